@@ -930,8 +930,8 @@ pub open spec fn fd_of(m: int, gf: spec_fn(real, Seq<real>) -> Seq<real>, tt: re
             assert(d * od >= 0real) by(nonlinear_arith) requires d > 0real, od >= 3real;
         }""")
     st.hint("before: #3 Err(IVPStatus::Redo)", "proof { lemma_hist_empty(" + AB("self") + "); }")
-    st.hint("before: #1 bdf.scratch_pad = -(bdf.derivative)", "let ghost b0 = *bdf;")
-    st.hint("before: #2 bdf.scratch_pad = -(bdf.derivative)", "let ghost b0 = *bdf;")
+    st.hint("before: #1 bdf.scratch_pad =", "let ghost b0 = *bdf;")
+    st.hint("before: #2 bdf.scratch_pad =", "let ghost b0 = *bdf;")
     return u, j
 
 
